@@ -27,6 +27,7 @@ A spec is a JSON list of items
    "rename_expr": {"np.sum(Axy)": "sumAxy"}     optional: sub-expressions (ast.unparse text) -> parameter
    "subexpr": "(dst - lag >= 0) * (dst - lag <= taumax)"   optional: translate only this sub-expression
                                                of the selected statement (must occur in it)
+                                               ("x.max()": "x_max" names a zero-argument method call)
   }
 
 and the generated file contains, for each item, the source text as a comment
@@ -279,6 +280,12 @@ class Tr:
                     return self.calls[f], "Rat"
                 x, tx = self.tr(args[0])
                 return f"({self.calls[f]} {self.rat(x, tx)})", "Rat"
+            # a zero-argument method call declared as a parameter, e.g.
+            # "rename": {"edges.max()": "edges_max"}
+            if f is not None and not args and not n.keywords and (f + "()") in self.rename:
+                d2 = self.rename[f + "()"]
+                if d2 in self.types:
+                    return d2, ("Rat" if self.types[d2] == "Rat" else "Int")
             if f in ("int",) and len(args) == 1:
                 inner = args[0]
                 # int(np.ceil(a / b))
